@@ -172,3 +172,104 @@ def u_c11_lemma(c):
     instrumented = z3.Or(ce_el, others)          # should_instrument contract with el in the capture set
     delivered = z3.And(instrumented, ce_el)      # transformer emits interact iff instrumented; interact delivers iff CE(el,b)
     c.prove("delivered-iff-check_element", delivered == ce_el)
+
+
+# ---------------------------------------------------------------------------------------------
+# The per-name annotation table (__ptera_info__[v]["annotation"]) that fits_selector and Call.problems consult
+# ---------------------------------------------------------------------------------------------
+INFO_STMTS = [
+    ("plain", "x = __E1", None),
+    ("augmented", "x += __E1", None),
+    ("loop-target", "for x in __E1:\n    __S1", None),
+    ("annotated-A", "x: ANN_A = __E1", "A"),
+    ("annotated-B", "x: ANN_B = __E1", "B"),
+    ("annotated-A&C", "x: ANN_AC = __E1", "AC"),
+    ("annotated-non-tag", "x: ANN_int = __E1", "int"),
+    ("declared-A", "x: ANN_A", "A"),
+    ("declared-non-tag", "x: ANN_int", "int"),
+]
+
+
+def _replay_info(o):
+    import re as _re
+    m = _re.search(r"previous=(\S+) statement=(\S+):", o.get("note") or "")
+    t = _re.search(r"matches-(\w)-iff", o["name"])
+    if not m or not t:
+        return None
+    prev, stmt = m.group(1), m.group(2)
+    first = {"none": "pass", "A": "x: '@A' = 0", "B": "x: '@B' = 0", "A&B": "x: '@A & @B' = 0", "B&C": "x: '@B & @C' = 0", "non-tag": "x: int = 0"}[prev]
+    second = {"plain": "x = 1", "augmented": "x += 1", "loop-target": "for x in [1]:\n        pass", "annotated-A": "x: '@A' = 1", "annotated-B": "x: '@B' = 1",
+              "annotated-A&C": "x: '@A & @C' = 1", "annotated-non-tag": "x: int = 1", "declared-A": "x: '@A'", "declared-non-tag": "x: int"}[stmt]
+    carried = set(prev.replace("&", "")) & set("ABCD") if prev not in ("none", "non-tag") else set()
+    if stmt.endswith(("-A", "-B", "-A&C")):
+        carried |= set(stmt.split("-")[-1].replace("&", ""))
+    T = t.group(1)
+    src = f"def f():\n    {first}\n    {second}\n    return 0\n"
+    return f"""
+import os, sys, tempfile, importlib.util
+sys.path.insert(0, os.environ.get("PVC_REPO", "/repo"))
+from ptera import probing
+src = {src!r}
+d = tempfile.mkdtemp(); p = os.path.join(d, "info_mod.py"); open(p, "w").write(src)
+spec = importlib.util.spec_from_file_location("info_mod", p); mod = importlib.util.module_from_spec(spec); sys.modules["info_mod"] = mod; spec.loader.exec_module(mod)
+want = {T in carried!r}
+try:
+    with probing("f > $v:@{T}", env={{"f": mod.f}}, raw=True) as prb:
+        got = prb.accum()
+        try:
+            mod.f()
+        except Exception:
+            pass
+    accepted = True
+except Exception as e:
+    print("activation refused:", type(e).__name__, str(e)[:200])
+    accepted = False
+print(src, "selector f > $v:@{T}: accepted =", accepted, "expected", want)
+sys.exit(1 if accepted != want else 0)
+"""
+
+
+@unit("info-table.annotation", ["C11"], [TR + ":PteraTransformer.make_interaction", TR + ":PteraTransformer.visit_AnnAssign", TR + ":PteraTransformer._record_annotation"],
+      replay=_replay_info, mode="bounded", bound="tag universe {A, B, C, D}; previous table entry in {none, A, B, A&B, B&C, non-tag}; one binding statement of 9 kinds, instrumented or not",
+      assumed=["_evaluate(annotation) is the annotation's value (contract); the table entry is what transform() copies into __ptera_info__ (transform-orchestration unit)"])
+def u_info_table(c):
+    """Induction step for the table that `$v:@T`, `*:@T` and `v:@T` are resolved against (fits_selector registers the names
+    whose table entry matches; Call.problems refuses when none does).  From the property: a binding annotated with T must be
+    captured, so after processing ANY binding statement of x, for every tag T:
+        match_tag(T, table'[x])  <=>  match_tag(T, table[x])  or  the statement annotates x with (a set containing) T
+    -- in particular a plain re-binding never removes a tag, and a second annotation never hides the first one."""
+    from contracts.transform import setup, parse_stmt
+
+    it, tr, dec = setup(c)
+    tags = {n: it.getattr(it.get_global(TG, "tag"), n) for n in "ABCD"}
+    band = lambda a, b: it.binop(ast.BitAnd(), a, b)
+    anns = {"A": (tags["A"], {"A"}), "B": (tags["B"], {"B"}), "AC": (band(tags["A"], tags["C"]), {"A", "C"}), "int": (int, set())}
+    absent = it.models.absent(it)
+
+    def evaluate(it_, f, args, kwargs):
+        node = args[1]
+        if node is None:
+            return absent
+        assert isinstance(node, ast.Name) and node.id.startswith("ANN_"), ast.dump(node)
+        return anns[node.id[4:]][0]
+
+    it.policies[TR + ":PteraTransformer._evaluate"] = evaluate
+    olds = [("none", None, set()), ("A", tags["A"], {"A"}), ("B", tags["B"], {"B"}), ("A&B", band(tags["A"], tags["B"]), {"A", "B"}),
+            ("B&C", band(tags["B"], tags["C"]), {"B", "C"}), ("non-tag", int, set())]
+    oname, old, oldset = olds[c.choose(len(olds), "previous")]
+    if old is not None:
+        tr.fields["annotated"]["x"] = old
+        tr.fields["linenos"]["x"] = 1
+    label, src, ann = INFO_STMTS[c.choose(len(INFO_STMTS), "statement")]
+    node = parse_stmt(src)
+    st, out = run(it, it.getattr(tr, "visit"), [node])
+    c.prove(f"{label}/visitor-does-not-raise", st == "ok")
+    if st != "ok":
+        return
+    entry = tr.fields["annotated"].get("x", absent)
+    match = it.get_global(TG, "match_tag")
+    for T in "ABCD":
+        got = it.truth(it.call(match, [tags[T], entry], {}))
+        want = T in oldset or (ann is not None and T in anns[ann][1])
+        c.prove(f"table-entry-matches-{T}-iff-some-binding-so-far-carries-{T}", got == want, note=f"previous={oname} statement={label}: match={got} expected={want}")
+    c.prove("other-names-untouched", set(tr.fields["annotated"]) <= {"x"})
